@@ -1,5 +1,6 @@
 import Cutadapt.Proofs.StepsReport
 import Cutadapt.Proofs.StepsShape
+import Cutadapt.Generated.Filters
 /-! # C04 — each read is written once or counted as filtered once; totals add up
 
 Model: `Cutadapt.Pipeline` (`stepS`, `stepP`, `runStepsS/P`, `processReadS/P`, `runSingle/runPaired`),
@@ -244,4 +245,29 @@ theorem cli_counts_paired {o : Opts} {ads1 ads2 : List Matchable} {p : PairedPip
     `collectFiltered` keeps the later one, as `Statistics.collect` does). -/
 example : collectFiltered [.filter (some .isUntrimmed) none .any none, .demux [] none]
     { filteredByStep := [(0, 2), (1, 3)] } = [("discard_untrimmed", 3)] := by decide +kernel
+/-! ## Tie to the regenerated `FILTERS` table of `report.py`
+
+`Generated.filtersKeys` is re-extracted from the working tree on every run; these theorems are re-checked against it. -/
+
+/-- every category a step can count under is printed by the reports: the hypothesis of `report_categories_complete` holds for the
+    table the code has now -/
+theorem generated_filters_cover_documented : ∀ k ∈ documentedKeys, k ∈ Generated.filtersKeys := by decide
+
+/-- the identifiers the real predicate classes and demultiplexer steps report (regenerated) are keys of `FILTERS` -/
+theorem generated_idents_are_keys :
+    (Generated.predicateIdents ++ Generated.stepIdents).all (fun p => Generated.filtersKeys.contains p.2) = true := by decide
+
+/-- the model's identifiers are exactly the identifiers of the real predicate classes -/
+theorem model_idents_match_code :
+    [Pred.ident (.tooShort 0), Pred.ident (.tooLong 0), Pred.ident (.tooManyN 0), Pred.ident (.maxEE 0), Pred.ident (.maxAER 0),
+     Pred.ident .casava, Pred.ident .isUntrimmed, Pred.ident .isTrimmed] =
+    ["TooShort", "TooLong", "TooManyN", "TooManyExpectedErrors", "TooHighAverageErrorRate", "CasavaFiltered", "IsUntrimmed", "IsTrimmed"].map
+      (fun c => ((Generated.predicateIdents.find? (fun p => p.1 == c)).map (·.2)).getD "") := by decide
+
+/-- with the regenerated table: every reported category of a run is printed by the reports -/
+theorem report_categories_complete_generated (steps : List Step) :
+    ∀ s : Summary, ∀ k ∈ (collectFiltered steps s).map (·.1), k ∈ Generated.filtersKeys := by
+  intro s k hk
+  exact ((report_categories_complete Generated.filtersKeys generated_filters_cover_documented steps []).1 s k hk).2
+
 end Cutadapt.C04
